@@ -11,5 +11,5 @@ cp -r /repo/chi /repo/setup.py "$d"/ 2>/dev/null
 if [ "${SKIP_BASELINE:-0}" != 1 ]; then "$root"/tools/baseline.py "$d" | head -5; fi
 for id in "$@"; do
   echo "== $id on mutant"
-  CHI_SRC="$d" "$root"/check "$id" ${NOAUDIT:+--no-audit} 2>&1 | grep -v "^\s*\[\|consider\|omit\|Note\|^$\|conda" | tail -${TAILN:-6}
+  CHI_SRC="$d" "$root"/check "$id" ${NOAUDIT:+--no-audit} 2>&1 | grep -a -v "^\s*\[\|consider\|omit\|Note\|^$\|conda" | tail -${TAILN:-6}
 done
